@@ -157,6 +157,9 @@ func c07R1(p *core.Prog, r *core.Report) {
 					nRename++
 					src := core.CallArg(c, 0)
 					ok, why := tempNamePath(src)
+					if !ok && fromSpool(src) != nil {
+						ok, why = true, "name handed back by a helper that created, wrote and closed the temp file"
+					}
 					r.Check(ok, rule, fname, label, pos, "rename source must be the name of a file made by os.CreateTemp in this function: "+why)
 				case "OpenFile":
 					if fl, ok := core.ConstInt(core.CallArg(c, 1)); ok && fl == 0 {
@@ -333,6 +336,96 @@ func tempNamePath(v ssa.Value) (bool, string) {
 	return false, "leaves: " + strings.Join(ds, ", ")
 }
 
+// spoolHelper: an unexported function of the layout package that creates a temp file, writes it,
+// closes it and hands back its name: every success return (nil error) lies behind the nil edges of
+// the write and of the Close, and the returned string is the temp file's own name. Its caller
+// publishes the file with a rename. nameRes is the index of the name among the results.
+func spoolHelper(h *ssa.Function) (ok bool, nameRes int) {
+	if h == nil || len(h.Blocks) == 0 || h.Object() == nil || h.Object().Exported() {
+		return false, 0
+	}
+	res := h.Signature.Results()
+	if res.Len() < 2 || !types.Identical(res.At(res.Len()-1).Type(), types.Universe.Lookup("error").Type()) {
+		return false, 0
+	}
+	nameRes = -1
+	for i := 0; i < res.Len(); i++ {
+		if isStringType(res.At(i).Type()) {
+			nameRes = i
+		}
+	}
+	if nameRes < 0 {
+		return false, 0
+	}
+	isTemp := func(v ssa.Value) bool {
+		return v != nil && fromCall(v, 0, func(f *types.Func) bool { return isOS(f, "CreateTemp") })
+	}
+	var writes, closes []*ssa.Call
+	renames := 0
+	core.Calls(h, func(c ssa.CallInstruction) {
+		call, isCall := c.(*ssa.Call)
+		cal := core.Callee(c)
+		if cal == nil {
+			return
+		}
+		if isOS(cal, "Rename") {
+			renames++
+		}
+		if !isCall {
+			return
+		}
+		switch {
+		case core.IsMethod(cal, "os", "File", cal.Name()) && (cal.Name() == "Write" || cal.Name() == "WriteString" || cal.Name() == "ReadFrom"),
+			core.IsFunc(cal, "io", "Copy"), core.IsFunc(cal, "io", "CopyN"), core.IsFunc(cal, "io", "CopyBuffer"):
+			if isTemp(core.CallArg(c, 0)) {
+				writes = append(writes, call)
+			}
+		case core.IsMethod(cal, "os", "File", "Close"):
+			if isTemp(core.CallArg(c, 0)) {
+				closes = append(closes, call)
+			}
+		}
+	})
+	if renames > 0 || len(writes) == 0 || len(closes) == 0 {
+		return false, 0
+	}
+	for _, ret := range core.Returns(h) {
+		if !core.IsNilConst(core.ReturnOperand(ret, res.Len()-1)) {
+			continue
+		}
+		// a success return: complete file, and its own name
+		for _, w := range append(append([]*ssa.Call{}, writes...), closes...) {
+			for _, e := range errEdgesOf(h, w) {
+				if (core.Reach{}).FromEdge(e[0], e[1])[ret] {
+					return false, 0
+				}
+			}
+			if len(errEdgesOf(h, w)) == 0 {
+				return false, 0
+			}
+		}
+		if okName, _ := tempNamePath(core.ReturnOperand(ret, nameRes)); !okName {
+			return false, 0
+		}
+	}
+	return true, nameRes
+}
+
+// fromSpool: v is the name handed back by a spool helper; it returns the call.
+func fromSpool(v ssa.Value) *ssa.Call {
+	for _, l := range pathLeaves(v) {
+		for _, o := range core.Origins(l, core.SliceOpts{}) {
+			if o.Kind != core.OCall {
+				continue
+			}
+			if ok, k := spoolHelper(o.Call.Call.StaticCallee()); ok && (o.Res == k) {
+				return o.Call
+			}
+		}
+	}
+	return nil
+}
+
 func c07R2(p *core.Prog, r *core.Report) {
 	const rule = "C07.R2"
 	r.Rule(rule, "publish only complete files: each os.Rename in scheme/ocidir is dominated by a write and by the Close of its temp file and executes only on their nil-error edges", 4)
@@ -395,6 +488,21 @@ func c07R2(p *core.Prog, r *core.Report) {
 						why = append(why, "rename is reachable when the Close at "+p.Pos(cl.Pos())+" failed")
 					}
 				}
+			}
+			if sp := fromSpool(core.CallArg(rn, 0)); sp != nil && len(writes) == 0 {
+				// the temp file was written and closed by a helper: the rename runs only where the helper succeeded
+				if core.DominatesInstr(sp, ri) && errGuardedNil(ri, sp) {
+					wOK, cOK = true, true
+				} else {
+					why = append(why, "rename is reachable when "+sp.Call.StaticCallee().Name()+" failed")
+				}
+				ok := wOK && cOK && len(why) == 0
+				detail := "written and closed by " + sp.Call.StaticCallee().Name() + "; rename only on its success edge"
+				if !ok {
+					detail = strings.Join(why, "; ") + ": a short or failed write would be published under the final name"
+				}
+				r.Check(ok, rule, fname, label, pos, detail)
+				continue
 			}
 			if len(writes) == 0 {
 				why = append(why, "no write to a temp file in this function")
